@@ -128,9 +128,10 @@ CLAIMED = {
              "fetches_on_path); likewise traverse/traverse_from with relative prefixes (traverse_truthful); no fetch follows a "
              "write in _set/_delete (set/delete_reads_before_writes) hence a set/delete that raises MissingTrieNode leaves database, "
              "scratch cache, reference counts and pending prunes exactly as before (set_delete_missing_atomic); supplying the "
-             "reported node makes strict progress and never re-asks for it (get_retry_progress). Not proved: that the hash reported by "
-             "a failing set/delete lies on the requested path (incl. the normalisation sibling) and retry progress for set/delete - "
-             "tied by the correspondence and the oracle (path walker over the complete database; retry loop run to convergence).",
+             "reported node makes strict progress and never re-asks for it (get_retry_progress, set_delete_retry_progress); the hash "
+             "reported by a failing set/delete is the root's, a hashed subtree at a prefix of the key, or (delete) the sibling needed "
+             "to collapse a branch on that path (set_delete_missing_on_path). Tie: result or every exception field, state after the "
+             "failure, retry loop run to convergence, inside and outside squash_changes.",
         technique="Lean 4 proof (event-order invariant ReadsFirst, executor case analysis) + correspondence check with node removal",
         design_ref="6/C07"),
     "C12": dict(
